@@ -315,7 +315,7 @@ def max_rows(spec):
     return r
 
 
-def externalize(ops, kind, rng, extras=True, permute=True, h5name='data.h5'):
+def externalize(ops, kind, rng, extras=True, permute=True, h5name='data.h5', rename=True, partial=False):
     """Move inline channel data out of the add_channel ops into a write(data=...) argument of the given source kind.
 
     Returns (new_ops, data_param). Channel ops get a dataset_name when the source needs one.
@@ -325,6 +325,8 @@ def externalize(ops, kind, rng, extras=True, permute=True, h5name='data.h5'):
     chans = []
     for op in ops:
         if op.get('op') == 'add' and op.get('kind') == 'channel':
+            if partial and 'data' in op['kwargs'] and rng.random() < 0.5:
+                continue           # this channel keeps its inline data: inline and write-time data are then mixed
             d = op['kwargs'].pop('data', None)
             if d is not None:
                 chans.append((op, d['$arr']))
@@ -341,7 +343,7 @@ def externalize(ops, kind, rng, extras=True, permute=True, h5name='data.h5'):
         if kind == 'h5':
             dn = 'g%d/%s' % (rng.randint(0, 1), dn.replace(' ', '_').replace('.', '_')) if rng.random() < 0.6 else dn.replace(' ', '_').replace('.', '_')
             op['kwargs']['dataset_name'] = dn if rng.random() < 0.5 else '/' + dn
-        elif rng.random() < 0.35 or k:
+        elif (rename and rng.random() < 0.35) or k:
             if kind != 'struct' or True:
                 dn = 'ds_%d_%s' % (len(names), base.replace(' ', '_'))
                 op['kwargs']['dataset_name'] = dn
